@@ -1,6 +1,7 @@
 package main
 
 import (
+	"errors"
 	"fmt"
 	"os"
 	"path/filepath"
@@ -25,6 +26,7 @@ type op struct {
 	N    int    `json:"n"`
 	E    int    `json:"e"`
 	Res  string `json:"res"`
+	Dist int    `json:"dist"`
 	Ctd  int    `json:"ctd"`
 	Pre  int    `json:"pre"`
 	Del  []int  `json:"del"`
@@ -40,6 +42,7 @@ type schedule struct {
 	Cut    int     `json:"cut"`
 	Cuts   [][]int `json:"cuts"` // cuts[n-1][k-1]: first chunk of log k that exists after a further TruncateUptoTx(n)
 	Origin string  `json:"origin"`
+	MC     int     `json:"mc"` // MaxConcurrency of the store (0 = 16)
 }
 
 type schedFile struct {
@@ -217,14 +220,29 @@ func (r *runner) run(tryCuts bool, selftest string) []finding {
 					break
 				}
 			}
-			rec, ch := w.startCommitter(o.W, o.Lens, gid, aborts)
-			r.recs[o.W], r.parked[o.W] = rec, ch
-			select {
-			case <-g.arrived:
-			case cr := <-ch:
-				r.fault("committer %d returned before the ValuesAppended gate: %v", o.W, cr.err)
-			case <-time.After(stepDeadline):
-				r.fault("committer %d did not reach the ValuesAppended gate", o.W)
+			// a committer that was pre-committed a moment ago gives its tx holder back to the store's pool only after its id
+			// became visible: with a small MaxConcurrency the next committer may find the pool empty; nothing was
+			// appended in that case (the holder is taken first), so the committer is simply started again
+			for dl := time.Now().Add(stepDeadline); ; {
+				rec, ch := w.startCommitter(o.W, o.Lens, gid, aborts)
+				r.recs[o.W], r.parked[o.W] = rec, ch
+				again := false
+				select {
+				case <-g.arrived:
+				case cr := <-ch:
+					if errors.Is(cr.err, store.ErrMaxConcurrencyLimitExceeded) && time.Now().Before(dl) {
+						again = true
+						w.res.Count("append-retried:tx-pool-not-yet-released", 1)
+						time.Sleep(500 * time.Microsecond)
+						break
+					}
+					r.fault("committer %d returned before the ValuesAppended gate: %v", o.W, cr.err)
+				case <-time.After(stepDeadline):
+					r.fault("committer %d did not reach the ValuesAppended gate", o.W)
+				}
+				if !again {
+					break
+				}
 			}
 			w.res.Count("op:append(parked)", 1)
 		case "precommit":
@@ -268,6 +286,8 @@ func (r *runner) run(tryCuts bool, selftest string) []finding {
 			} else if err != nil {
 				w.res.DriftNote(fmt.Sprintf("schedule %d: TruncateUptoTx(%d) = %v, model: succeeds", r.si, o.N, err))
 				r.diverged = true
+			} else if got := w.truncs[len(w.truncs)-1].Dist; got != o.Dist && !r.diverged {
+				w.res.DriftNote(fmt.Sprintf("schedule %d step %d: farthest early-written tx %d ids past the cut %d, model %d", r.si, oi, got, o.N, o.Dist))
 			}
 		case "tback", "tsnap", "treadmax", "tfront", "twant":
 			// the real call ran as one step at tbegin
@@ -353,7 +373,7 @@ func (r *runner) run(tryCuts bool, selftest string) []finding {
 	for n := uint64(1); n <= last; n++ {
 		cdir := fmt.Sprintf("%s.cut%d", w.dir, n)
 		copyDir(w.dir, cdir)
-		c := &world{dir: cdir, m: w.m, f: w.f, unit: w.unit, seed: w.seed, cache: w.cache, txs: w.txs, cut: w.cut, res: w.res, split: false}
+		c := &world{dir: cdir, m: w.m, f: w.f, unit: w.unit, seed: w.seed, cache: w.cache, txs: w.txs, cut: w.cut, res: w.res, split: false, mc: w.mc}
 		c.truncs = append(c.truncs, w.truncs...)
 		if err := c.open(); err != nil {
 			r.findings = append(r.findings, finding{sigReopen, fmt.Sprintf("open copy for cut %d: %v", n, err), nil})
@@ -414,7 +434,7 @@ func (r *runner) run(tryCuts bool, selftest string) []finding {
 }
 
 func newRunner(si int, sc schedule, seed int64, unit int, dir string, res *vh.Result) *runner {
-	w := &world{dir: dir, m: sc.M, f: sc.F, unit: unit, seed: seed, txs: map[uint64]*txRec{}, res: res, split: sc.Split}
+	w := &world{dir: dir, m: sc.M, f: sc.F, unit: unit, seed: seed, txs: map[uint64]*txRec{}, res: res, split: sc.Split, mc: sc.MC}
 	return &runner{w: w, sc: sc, si: si, parked: map[int]chan commitResult{}, recs: map[int]*txRec{}, gateIDs: map[int]string{},
 		place: map[int]placement{}, writerOf: map[int]int{}}
 }
@@ -455,12 +475,12 @@ func runReplay(path string, seed int64, dir string, cutsEvery int, res *vh.Resul
 							res.Count("unreproduced:"+f.sig, 1)
 							continue
 						}
-						rp := map[string]interface{}{"origin": sc.Origin, "m": sc.M, "f": sc.F, "unitBytes": sf.Unit, "split": sc.Split, "primed": sc.Primed,
+						rp := map[string]interface{}{"origin": sc.Origin, "m": sc.M, "f": sc.F, "unitBytes": sf.Unit, "split": sc.Split, "primed": sc.Primed, "maxConcurrency": r.w.maxConc(),
 							"seed": seed, "schedule": compact(sc.Ops), "truncations": r.w.truncs, "how": "harness/cmd/c14 -mode replay"}
 						for k, v := range f.extra {
 							rp[k] = v
 						}
-						res.Violate(f.sig, fmt.Sprintf("schedule %d (%s, %d value logs, chunk = %d values): %s", si, sc.Origin, sc.M, sc.F, f.text), rp)
+						res.Violate(f.sig, fmt.Sprintf("schedule %d (%s, %d value logs, chunk = %d values, MaxConcurrency %d): %s", si, sc.Origin, sc.M, sc.F, r.w.maxConc(), f.text), rp)
 					}
 					if !r2.w.hung {
 						os.RemoveAll(r2.w.dir)
